@@ -10,7 +10,7 @@ for r in guard/*.diff; do
     *) C="C01";;
   esac
   echo "##### $r"
-  tools/eval_mutant.sh "$r" $C | grep -E "^== |violation key|HARNESS" | cut -c1-200
-  tools/eval_mutant.sh "$r" $C >/dev/null 2>&1 || rc=1
+  tools/eval_mutant.sh "$r" $C > /dev/shm/guard.$$ 2>&1 || rc=1
+  grep -E "^== |violation key|HARNESS" /dev/shm/guard.$$ | cut -c1-200; rm -f /dev/shm/guard.$$
 done
 exit $rc
